@@ -63,7 +63,7 @@ package abci
 //@   requires p != nil && latestVersion <= 9223372036854775807
 //@   precall db/api\.NodeDB\)\.Prune$ :: latestVersion >= old(p.keepN) && argAs[uint64](0) < preserveFrom && int(preserveFrom) + int(old(p.keepN)) == int(latestVersion) && (forall j int :: 0 <= j && j < len(p.handlers) ==> ufr[error]("CanPruneConsensus", p.handlers[j], int64(argAs[uint64](0))) == nil)
 //@   precall db/api\.NodeDB\)\.Sync$ :: true
-//@   loop 1 invariant p.handlers == old(p.handlers) && p.keepN == old(p.keepN)
+//@   loop 1 invariant p.keepN == old(p.keepN)
 //@   note a version is handed to NodeDB.Prune only if it is more than keepN versions behind the latest one and every registered prune handler allowed it
 
 //@ func genericPruner.canPrune
